@@ -90,6 +90,39 @@ theorem join_key_same_on_both_sides :
   repeat' apply And.intro
   all_goals first | rfl | decide
 
+/-! ### faults and index anomalies -/
+
+/-- `serviceConfig` gives nothing for a service whose catalog lookup fails (`return nil` right after the lookup),
+and its only other results are the early `nil` and the commands built in this call (model: `joinedF`) -/
+theorem service_config_nil_on_lookup_error :
+    Generated.C01.serviceConfigOnLookupError = ["log", "return nil"] ∧
+    Generated.C01.serviceConfigReturns = ["return nil", "return nil", "return config"] := by
+  repeat' apply And.intro
+  all_goals first | rfl | decide
+
+/-- `ServiceMonitor` keeps no state between rounds: its fields are the client, the configuration, the datacenter
+and the strict flag, no method assigns to a field, and the package has no package-level variable — each emitted
+text is a function of the round's own answers (model: `watchOnceF` has no state argument) -/
+theorem service_monitor_stateless :
+    Generated.C01.serviceMonitorFields = ["client", "config", "dc", "strict"] ∧
+    Generated.C01.serviceMonitorFieldWrites = [] ∧
+    Generated.C01.consulPackageVars = [] := by
+  repeat' apply And.intro
+  all_goals first | rfl | decide
+
+/-- `watchKV`: the only tests are the error test and the change test `value != lastValue || index != lastIndex`
+(no ordering comparison on the index: an index that goes backwards is a change like any other); what is remembered
+is written only together with the send. `Watch`: the index is only stored, never compared. -/
+theorem watchers_only_test_for_change :
+    Generated.C01.watchKVConds = ["err != nil", "value != lastValue || index != lastIndex"] ∧
+    Generated.C01.watchKVWrites = ["lastValue, lastIndex = value, index"] ∧
+    Generated.C01.watchKVSends = ["config <- value"] ∧
+    Generated.C01.watchConds = ["w.config.PollInterval != 0", "err != nil"] ∧
+    Generated.C01.watchWrites = ["lastIndex = meta.LastIndex"] ∧
+    Generated.C01.watchSends = ["updates <- w.makeConfig(passing)"] := by
+  repeat' apply And.intro
+  all_goals first | rfl | decide
+
 /-! ### `main.go` -/
 
 /-- `watchBackend`: receive one event; service text, "\n", manual text; skip when equal to the remembered
